@@ -292,7 +292,10 @@ impl Check for C13 {
         if rng.chance(3, 5) {
             for _ in 0..4 {
                 if let Some((bytes, fi, lim)) = make_fault(&mut rng, &spec, tier) {
-                    let cfg = IterCfg { max_size: lim, capacity: io::gen_capacity(&mut rng, bytes.len()), ..Default::default() };
+                    // documents whose sizes are all honest can also be read with the limit removed
+                    let lim = if lim == MaxSz::Default && rng.chance(1, 3) { MaxSz::Unlimited } else { lim };
+                    let mut cfg = IterCfg { max_size: lim, capacity: io::gen_capacity(&mut rng, bytes.len()), ..Default::default() };
+                    crate::harness::gen_cfg_history(&mut rng, &mut cfg);
                     let script = io::gen_rscript(&mut rng, bytes.len(), &[]);
                     return Case { rc: ReadCase { spec, input: Arc::new(bytes), cfg, script, driver: Driver::UntilEnd { extra: 0 }, class: "single-fault" }, fault: Some(fi) };
                 }
@@ -304,7 +307,8 @@ impl Check for C13 {
         doc.raw_pct = *rng.pick(&[0u64, 10]);
         let io_o = InputOpts { doc, faulted_pct: 60, truncated_pct: 5, random_pct: 5, soup_pct: 10, max_faults: 3, mid_document_pct: 0 };
         let gi = cases::gen_input(&mut rng, &spec, &io_o, &mut fs);
-        let cfg = IterCfg { max_size: MaxSz::Limit(*rng.pick(&[4usize, 30, 1000, 1 << 20])), capacity: io::gen_capacity(&mut rng, gi.bytes.len()), buffered: cases::gen_buffered(&mut rng, &spec, 15), ..Default::default() };
+        let mut cfg = IterCfg { max_size: MaxSz::Limit(*rng.pick(&[4usize, 30, 1000, 1 << 20])), capacity: io::gen_capacity(&mut rng, gi.bytes.len()), buffered: cases::gen_buffered(&mut rng, &spec, 15), ..Default::default() };
+        crate::harness::gen_cfg_history(&mut rng, &mut cfg);
         let script = io::gen_rscript(&mut rng, gi.bytes.len(), &[]);
         Case { rc: ReadCase { spec, input: Arc::new(gi.bytes), cfg, script, driver: Driver::UntilEnd { extra: 0 }, class: gi.class }, fault: None }
     }
